@@ -443,10 +443,27 @@ pub unsafe extern "C" fn pthread_create(
         if r != 0 {
             drop(Box::from_raw(b));
         }
-        crate::sim::adopt_end(id, r == 0);
+        crate::sim::adopt_end(id, r == 0, if r == 0 && !thread.is_null() { *thread as usize } else { 0 });
         return r;
     }
     realf(thread, attr, start, arg)
+}
+
+#[cfg(all(target_os = "linux", target_arch = "x86_64"))]
+#[no_mangle]
+pub unsafe extern "C" fn pthread_join(thread: libc::pthread_t, retval: *mut *mut libc::c_void) -> libc::c_int {
+    static REAL: std::sync::atomic::AtomicUsize = std::sync::atomic::AtomicUsize::new(0);
+    let mut real = REAL.load(Ordering::Relaxed);
+    if real == 0 {
+        real = libc::dlsym(libc::RTLD_NEXT, b"pthread_join\0".as_ptr() as *const libc::c_char) as usize;
+        REAL.store(real, Ordering::Relaxed);
+    }
+    if real == 0 {
+        return libc::EINVAL;
+    }
+    let realf: unsafe extern "C" fn(libc::pthread_t, *mut *mut libc::c_void) -> libc::c_int = std::mem::transmute(real);
+    crate::sim::intercept_join(thread as usize);
+    realf(thread, retval)
 }
 
 #[cfg(all(target_os = "linux", target_arch = "x86_64"))]
